@@ -73,6 +73,13 @@ func reg(name string, f intrinsic) { intrinsics[name] = f }
 
 func (i *interpreter) stub(name string) { i.stubsHit[name]++ }
 
+// freeStub marks the path as depending on a free (uninterpreted) outcome: such
+// paths are not used for native cross-validation.
+func (i *interpreter) freeStub(name string) {
+	i.stubsHit[name]++
+	i.tainted = true
+}
+
 // sanitize makes an SMT-safe symbol.
 func sanitize(s string) string {
 	var sb strings.Builder
@@ -793,7 +800,7 @@ func init() {
 		if i.decide(tt.And(tt.Bin(OpSle, tt.Const(w, 0), t), tt.Bin(OpSlt, t, tt.Const(w, 0x20)))) {
 			return 0
 		}
-		i.stub("runewidth.RuneWidth on a symbolic non-ASCII rune (free in [0,2])")
+		i.freeStub("runewidth.RuneWidth on a symbolic non-ASCII rune (free in [0,2])")
 		return i.choose(3, "runewidth")
 	})
 	reg("github.com/mattn/go-runewidth.StringWidth", func(fr *frame, a []value) value {
@@ -989,7 +996,7 @@ func init() {
 		i := fr.i
 		if _, ok := a[0].(string); !ok {
 			// contract stub: the error is free; url.Error renders the URL with %q
-			i.stub("net/url.Parse on symbolic text (free error, message quotes the URL)")
+			i.freeStub("net/url.Parse on symbolic text (free error, message quotes the URL)")
 			if i.decide(i.freshBool("url_Parse_err")) {
 				return tuple{(*value)(nil), i.newError(&Rope{[]ropePart{{lit: "parse "}, {verb: "%q", arg: a[0]}, {lit: ": invalid URL"}}})}
 			}
@@ -1158,7 +1165,7 @@ func (i *interpreter) runeClassTerm(name string, s *Sym, ascii func(b byte) bool
 	if isASCII.IsTrue() {
 		return exact
 	}
-	i.stub(name + " (non-ASCII: uninterpreted)")
+	i.freeStub(name + " (non-ASCII: uninterpreted)")
 	uf := tt.Var(fmt.Sprintf("uf_%s_t%d", sanitize(name), t.id), 0)
 	return tt.Ite(isASCII, exact, uf)
 }
@@ -1176,7 +1183,7 @@ func (i *interpreter) freshBV(base string, w int) *Term {
 // parseIntStub: contract stub for integer parsing of symbolic text:
 // (v, err) with err free and v free within the bit size.
 func (i *interpreter) parseIntStub(name string, s value, k types.BasicKind, bits int) value {
-	i.stub(name + " (contract stub on symbolic text)")
+	i.freeStub(name + " (contract stub on symbolic text)")
 	if i.decide(i.freshBool(name + "_err")) {
 		return tuple{mkConc(k, 0), i.newError(&Rope{[]ropePart{{lit: name + ": parsing "}, {verb: "%q", arg: s}, {lit: ": invalid syntax"}}})}
 	}
@@ -1215,7 +1222,7 @@ func (i *interpreter) parseFloatStub(s value) value {
 		}
 		return tuple{f, iface{}}
 	}
-	i.stub("strconv.ParseFloat (contract stub on symbolic text: special forms exact, otherwise free)")
+	i.freeStub("strconv.ParseFloat (contract stub on symbolic text: special forms exact, otherwise free)")
 	bs := strBytes(s)
 	lower := func(b value) value {
 		if c, ok := b.(uint8); ok {
@@ -1271,7 +1278,7 @@ func (i *interpreter) parseFloatStub(s value) value {
 // matchStub: a regular expression applied to symbolic text is a free boolean,
 // functionally consistent per (pattern, subject term) pair.
 func (i *interpreter) matchStub(re *regexp.Regexp, s value) value {
-	i.stub("(*regexp.Regexp).MatchString (uninterpreted on symbolic text)")
+	i.freeStub("(*regexp.Regexp).MatchString (uninterpreted on symbolic text)")
 	key := fmt.Sprintf("%p", re)
 	for _, b := range strBytes(s) {
 		if sb, ok := b.(*Sym); ok {
